@@ -22,6 +22,16 @@ pub(crate) const NAME: &str = env!("CARGO_BIN_NAME");
 pub(crate) const VERSION: &str = env!("CARGO_PKG_VERSION");
 pub(crate) const AUTHOR: &str = env!("CARGO_PKG_AUTHORS");
 
+/// Parses a print precision.
+///
+/// The standard formatting machinery only supports precisions that fit in 16 bits (and panics
+/// otherwise), so anything larger is rejected when parsing arguments.
+pub(crate) fn parse_precision(s: &str) -> Result<usize, String> {
+    s.parse::<u16>()
+        .map(usize::from)
+        .map_err(|e| format!("{e} (precision must be at most {})", u16::MAX))
+}
+
 /// Tools for working with site frequency spectra.
 #[derive(Debug, Parser)]
 #[clap(name = NAME, author = AUTHOR, version = VERSION, about)]
